@@ -30,7 +30,7 @@ Fixpoint pacts (fuel : nat) (e : expr) : list pact :=
   | EFilter e' g => pacts f e' ++ pacts f g
   | EFor ds body => PPush :: PAdd n_partial :: flat_map (fun nd => PAdd (fst nd) :: dacts (snd nd)) ds ++ pacts f body ++ [PPop]
   | ESome ds body | EEvery ds body => PPush :: flat_map (fun nd => PAdd (fst nd) :: pacts f (snd nd)) ds ++ pacts f body ++ [PPop]
-  | EFun ps body => PPush :: map PAdd ps ++ pacts f body ++ [PPop]
+  | EFun ps body => PPush :: map PAdd (map fst ps) ++ pacts f body ++ [PPop]
   | ECall fe args => pacts f fe ++ flat_map (pacts f) args
   | ECallN fe nargs => pacts f fe ++ flat_map (fun ne => pacts f (snd ne)) nargs
   end end.
